@@ -42,6 +42,8 @@ def configs_for(prop, tier):
             out.append(cfg('pcm_N2_long_short_w', n=2, sizer='long_short', wlist=[0.5, -0.5], weight=2000, twins=['order_emitted'], validate_every=5,
                            bound='2 assets, real long/short sizer, concrete weights (0.5,-0.5) where weighted, holdings/prices/cash symbolic'))
     else:
+        out.append(cfg('pcm_dynamic_N2_entries_in_newyork', n=2, universe='dynamic', weight=150, twins=['member_weighted', 'nonmember_untouched'], entry_tz='America/New_York',
+                       bound='as pcm_dynamic_N2 with entry instants that are timezone-aware in America/New_York'))
         ns = [2] if tier == 'quick' else [2, 3]
         for n in ns:
             out.append(cfg('pcm_dynamic_N%d' % n, n=n, universe='dynamic', weight=10 ** n, twins=['member_weighted', 'nonmember_untouched'],
@@ -82,7 +84,7 @@ class Rebalance(Harness):
                  tgt=[{a: mk.int('tgt%d_%s' % (r, a[-1])) for a in A} for r in range(self.cfg['rounds'])],
                  p=[{a: mk.real('p%d_%s' % (r + 1, a[-1])) for a in A} for r in range(self.cfg['rounds'])])
         if self.dynamic:
-            d.update(t0=mk.time('t0'), t=mk.time('t'), entry={a: mk.time('entry_' + a[-1]) for a in A},
+            d.update(t0=mk.time('t0'), t=mk.time('t'), entry={a: mk.time('entry_' + a[-1], tz=self.cfg.get('entry_tz', 'UTC')) for a in A},
                      listed={a: mk.flag('listed_' + a[-1]) for a in A}, signal=mk.real('signal'))
         else:
             d.update(inuni={a: mk.flag('inuni_' + a[-1]) for a in A}, weighted={a: mk.flag('weighted_' + a[-1]) for a in A})
